@@ -117,3 +117,31 @@ def runCoded {Val Res Err} (close : Val → Val → Bool) (compute : Val → Exc
     | _, _ => runCoded close compute s' ops
 
 end MenpoModel.C09
+
+namespace MenpoModel.C09
+
+/-! ### transforms as state machines over their instance attributes
+
+`step s x = (s', y)`: applying the transform whose instance attributes are `s` to input `x` leaves the
+attributes `s'` and returns `y`.  For every class but the caching piecewise affine the regenerated table
+`Generated.C09Writes` (extracted from live objects on every run) says that `apply` writes no attribute. -/
+
+structure Machine (S I O : Type) where
+  step : S → I → S × O
+
+def Machine.run {S I O} (m : Machine S I O) : S → List I → List O
+  | _, [] => []
+  | s, x :: xs => (m.step s x).2 :: m.run (m.step s x).1 xs
+
+/-- class name ↦ instance attributes written (rebound, added or modified in place) by `apply` -/
+abbrev WriteTable := List (String × List String)
+
+/-- what the model assumes of menpo's transform classes: only the caching piecewise affine keeps a memo -/
+def expectedApplyWrites : WriteTable :=
+  [("Affine", []), ("AlignmentAffine", []), ("AlignmentRotation", []), ("AlignmentSimilarity", []),
+   ("AlignmentTranslation", []), ("AlignmentUniformScale", []), ("CachedPWA", ["_applied_points", "_iab"]),
+   ("Homogeneous", []), ("NonUniformScale", []), ("PythonPWA", []), ("R2LogR2RBF", []), ("R2LogRRBF", []),
+   ("Rotation", []), ("Similarity", []), ("ThinPlateSplines", []), ("TransformChain", []), ("Translation", []),
+   ("UniformScale", []), ("WithDims", [])]
+
+end MenpoModel.C09
